@@ -60,7 +60,10 @@ CHECKS = [
         "child type is present, frame: no other span touched), stream->map conversion, and job assembly (one PV event per span in order, "
         "job id / name / type / application copied, timestamp = unix_nano_to_pv_string(end), previousEventIds = the links computed by the "
         "recursion). The same clause texts are evaluated at run time on the real functions: exhaustively on small scopes (all 1-3 sibling "
-        "interval configurations on a 5-point grid, all trees <= 4 spans) and on seeded random inputs.",
+        "interval configurations on a 5-point grid, all trees <= 4 spans) and on seeded random inputs. The job-level composition "
+        "(sequence_otel_jobs, sequence_otel_job_id_streams; contracts/c08_jobs.py, 8 clauses) is proved as plumbing: job k of the stream is the "
+        "trace-level job of trace k, renamed first when rules are given, with the async flag and the prior information in their places - the three "
+        "callees are trusted leaves there (proved in c08.py / c12.py), generators read as lists.",
         "Trusted / not covered: the recursion sequence_otel_event_ancestors is a pure symbol here (its own contract against the LINKS "
         "specification is checked at run time on all small trees, bounded, not proved); order_groups' content clause (permutation of the "
         "input) is stated, not discharged, and checked at run time only; sorted()/max()/dict/list builtins by trusted contracts (listed in "
